@@ -60,6 +60,40 @@ CHECKS['C08'] = dict(
          'distance matrix is abstracted to free non-negative reals (superset of all geometries) with exact-geometry re-execution for counterexamples.',
     note='Trusted: z3; cdist stand-in (exact squared distances or order abstraction); ties between distances in one row excluded; 1.1**k enters as its exact binary64 value.',
     design='3/C08', technique=SYMX + '; order-only abstraction of the distance matrix; differential against a reference model')
+FORK = ('bounded symbolic execution of the real code: symbolic integers (z3 Int) for indices / cursors / orders with solver-enumerated feasible values, '
+        'coverage of the symbolic ranges proved by a solver query; structural enumeration of layouts within the bound')
+CHECKS['C10'] = dict(
+    text='(1) the slice arithmetic of _split_list is read from the source and proved for every list length (unbounded integer) and 1..40 parts; (2) real '
+         'residue/protein guessers with symbolic offsets: coverage, ranges, order, same-position pairing as SMT obligations; (3) real '
+         'Alignment.align_molecules with symbolic restraint indices, all hydrogen masks and size orders, optimiser replaced by a recorder; (4) real '
+         'Manager option routing with opaque values and rejection of malformed input before any alignment starts.',
+    note='Trusted: z3; Python // and % = z3 div/mod for positive divisors; the recorder stands in for the optimiser (its behaviour is C06/C09).',
+    design='3/C10', technique='AST-to-SMT kernel over unbounded integers + ' + FORK)
+CHECKS['C11'] = dict(
+    text='Real System/SystemGro/GroFile/Molecule on in-memory files written by the real writer, for every composition of up to 4 (quick) / 5 (thorough) '
+         'molecule instances over three loadable species (multi-residue, repeated residue) and a solvent; load order, index and slice bounds are '
+         'symbolic integers; recognised molecules, order, atom runs, names, coordinates, len/composition/indexing/slicing compared with the instances the file '
+         'was assembled from; absent topologies must be refused.',
+    note='Trusted: z3 for the enumeration/coverage of the symbolic integers; the comparison with the expected instances is concrete on each path.',
+    design='3/C11', technique=FORK)
+CHECKS['C12'] = dict(
+    text='Real SystemGro over the real GroFile on in-memory files for every residue layout within the bound (4 residue kinds incl. equal names with different '
+         'sizes); one inductive access step: arbitrary stale cursor (symbolic atom position) then symbolic index / slice, compared with an independent parse; '
+         'iteration tiles the file; counts, box, title agree.',
+    note='Trusted: as C11. Reachable cursor states = positions at the beginning of an atom line or of the box line (every access seeks before reading).',
+    design='3/C12', technique=FORK + '; inductive access step from an arbitrary cursor state')
+CHECKS['C13'] = dict(
+    text='AST-to-SMT kernels decided for every integer in range: five-digit wrap of atom/residue numbers, width/decimals inference of the reader vs the '
+         'writer\'s line length, expected line length, count back-fill offset, seek_atom offsets.  CrossHair (bounded refuter) on the real '
+         'parse_atomlist/parse_atomline with symbolic ints and short symbolic names.',
+    note='Trusted: z3; Python str.format width semantics; CrossHair results are reported as confirmed / no counterexample within the budget.',
+    design='3/C13', technique='AST-to-SMT kernels over the integers + CrossHair symbolic execution of the string code')
+CHECKS['C14'] = dict(
+    text='Real GroFile reader executed on a file model whose end-of-file is one symbolic integer: every byte-level truncation point of files written by the '
+         'real writer (1..4 atoms quick, ..6 and 40 thorough; count declared/deferred; velocities) lies on an explored path; accepted paths must lie inside '
+         'the box line and return the complete records; coverage of 0..len proved by the solver; writer crash points = prefixes of the real write/seek log.',
+    note='Trusted: z3; the file model (readline/seek/tell on a prefix of the complete content), validated against the complete file on every run.',
+    design='3/C14', technique='symbolic end-of-file (z3 Int) under the real reader; path-condition coverage query')
 NOT_YET = {}
 def main():
     props = [json.loads(l) for l in open(os.path.join(HERE, 'properties.jsonl'))]
